@@ -28,6 +28,12 @@ CHECKS = {
  "C13": ("other", "dominator / post-dominator obligations on mmd_transclude_source's CFG + interval analysis of its text[] buffer",
          "Decides the termination guard only: the recursive call is dominated by the push of the file and by a membership loop over the files being expanded whose hit branch skips the recursion, every push is followed by exactly one pop, exit restores the stack; and the 1000-byte cap fits text[1100]. Exact substitution, manifest contents and path resolution are not decided.",
          "§3 C13"),
+ "C15": ("other", "generated _Static_assert witnesses compiled with clang -fsyntax-only + AST census of next/prev/mate stores + whole-program value-origin analysis of token.type",
+         "Decides the compile-time clause exhaustively (every parser terminal below the first block type, every token/critic type below kMaxTokenTypes, every offset-arithmetic family consecutive and equally long, sizeof(token) fits the pool) and two structural necessary conditions of the run-time clauses: R-LINK (next stores are matched by prev stores, mate written symmetrically) and R-TYPEWRITE. Span containment, source order and root span are not decided.",
+         "§3 C15"),
+ "C18": ("other", "structural obligations (dominators, guard conditions) on object_pool.c/token.c and a counter abstraction (set-of-counts dataflow) over main's CFG",
+         "Decides the implementation-side structure of the protocol: slab arithmetic consistent, bump gated by next<last and refill at next==last, slab aliases reset after drain, shared pool drained/freed only at use count 0, init idempotent, and the CLI never allocates tokens outside an init..drain bracket and frees at count 0. Behaviour of arbitrary client call histories is not decided.",
+         "§3 C18"),
  "C17": ("other", "same inventory on the -DDISABLE_OBJECT_POOL configuration with an empty allow list",
          "Decides the 'no shared mutable state' clause for the pool-disabled build; does not decide byte equality across threads.",
          "§3 C17"),
